@@ -11,15 +11,19 @@ import tempfile
 import time
 import z3
 
-Z3_TIMEOUT_MS = int(os.environ.get("VERIF_Z3_TIMEOUT_MS", "30000"))
-CLI_TIMEOUT_S = int(os.environ.get("VERIF_CLI_TIMEOUT_S", "60"))
+def _z3_ms():
+    return int(os.environ.get("VERIF_Z3_TIMEOUT_MS", "30000"))
+
+
+def _cli_s():
+    return int(os.environ.get("VERIF_CLI_TIMEOUT_S", "60"))
 
 
 def check(ob, second=False):
     """Decide one obligation; sets ob.status/.model/.time/.backend."""
     t0 = time.time()
     s = z3.Solver()
-    s.set("timeout", Z3_TIMEOUT_MS)
+    s.set("timeout", _z3_ms())
     for h in ob.hyps:
         s.add(h)
     s.add(z3.Not(ob.goal))
@@ -52,6 +56,7 @@ def check(ob, second=False):
 
 
 def run_cli(smt, which):
+    CLI_TIMEOUT_S = _cli_s()
     d = tempfile.mkdtemp(prefix="pyvc-smt-")
     p = os.path.join(d, "q.smt2")
     try:
